@@ -1,6 +1,7 @@
 """Registry: property id -> Lean modules/theorems, run function, replay function."""
 from common import *
 import c_gc
+import c_sched
 
 TRUSTED = [
     "Lean 4.33.0 kernel; axioms allowed in any property theorem: propext, Classical.choice, Quot.sound (checked by #print axioms on every run)",
@@ -105,6 +106,40 @@ def run_c16(tier, seed):
     return {"coverage": cov, "violations": viols, "summary": f"families={len(scripts)} max_objects={big.get('objects')} disagreements={len(res['disagree'])}"}
 
 
+def node_replay(path):
+    ops = [l.strip() for l in open(path) if l.strip() and not l.startswith("#") and not l.startswith("correspondence")]
+    text = "\n".join(ops) + "\n"
+    hl, ml, rc, herr = run_pair("node", text, harness_env={"NODE_TRUTH": "1"})
+    bad = False
+    for o, h, m in zip(ops, hl, ml):
+        flag = "" if h.split("\t")[0] == m else "   <-- model differs"
+        if "TRUTH-FAIL" in h or flag: bad = True
+        print(f"{o:14s} impl: {h}\n{'':14s} model: {m}{flag}")
+    return 1 if bad else 0
+
+
+def run_c03(tier, seed):
+    cov, res, scripts = c_sched.check_c03(tier, seed)
+    viols = []
+    if res["truth"]:
+        k, j, f = res["truth"][0]
+        s = scripts[k][: j + 1]
+        s = c_sched.minimise(s, lambda c: bool(c_sched.node_compare([c])["truth"]))
+        viols.append({"what": f"glitch on the real scheduler: {f} ({len(res['truth'])} failing transactions)", "found_input": True,
+                      "replay_text": "# implementation vs glitch-freedom ground truth: " + f + "\n" + "\n".join(s) + "\n",
+                      "signature": " ; ".join(l for l in s if not l.startswith("variant"))})
+    elif res["disagree"]:
+        k, j, h, m = res["disagree"][0]
+        s = scripts[k][: j + 1] if k >= 0 else []
+        if s: s = c_sched.minimise(s, lambda c: bool(c_sched.node_compare([c])["disagree"]))
+        viols.append({"what": f"model M_sched and update_node disagree on update order ({len(res['disagree'])} scripts); no glitch found on the implementation",
+                      "found_input": False,
+                      "replay_text": "correspondence L-node (Model/Sched.lean vs src/impl_/sodium_ctx.rs update_node/end_of_transaction) no longer checks; theorem sched_glitch_free of Props/C03.lean no longer applies to the code\n"
+                                     f"# first disagreement: impl `{h}` model `{m}`\n" + "\n".join(s) + "\n", "signature": None})
+    c = cov["correspondence"]
+    return {"coverage": cov, "violations": viols, "summary": f"L-node scripts={c['scripts']} txns={c['transactions']} disagreements={c['model_vs_impl_disagreements']} truth_failures={c['impl_vs_ground_truth_failures']}"}
+
+
 HOOK_COMMITS = ["fdc44d7"]
 NOT_CLAIMED = {}
 
@@ -121,4 +156,10 @@ PROPS = {
             "level_text": "Termination (fuel never exhausted) and a linear bound on trace() calls per pass are theorems about M_gc for every graph; the model's counters must equal the real collector's hook counters exactly on ladders of diamonds, fans, chains, rings and random shared graphs at doubling sizes, and the implementation's own counters are checked against the linear bound and a doubling-ratio test.",
             "level_note": "Cost is counted in trace() invocations and tracer callbacks, never wall-clock. Trusted as for C08; the hook counters in GcNode::trace.",
             "design_ref": "DESIGN.md section 6, C16"},
+    "C03": {"modules": ["SodiumVerif.Props.C03"], "audit_import": "SodiumVerif.Props.C03", "theorems": c_sched.C03_THEOREMS,
+            "run": run_c03, "replay": node_replay,
+            "technique": "Lean 4 theorem on the scheduler model M_sched (every DAG, every registration order) + exact update-order correspondence with update_node on raw Node graphs",
+            "level_text": "Glitch freedom is a theorem about M_sched for every finite DAG, registration order and set of fired sources; the model's update order must equal the real update_node's on random DAGs and on every DAG with <=4 (quick) / <=5 (thorough) nodes x registration orders x fired subsets, and the implementation is separately checked against a direct glitch predicate to find concrete failing graphs.",
+            "level_note": "Trusted as for C08; raw Node graphs use a recording update closure (fires iff a dependency fired). API-level lifts/merges are covered under C02/C13.",
+            "design_ref": "DESIGN.md section 6, C03"},
 }
